@@ -184,7 +184,7 @@ def check(prop, tier, seed, nruns=None, nworkers=None, quiet=False):
             hs = kernel.HASHSEEDS[((r // kernel.CHUNK) + HS_SHIFT) % len(kernel.HASHSEEDS)]
             remaining = max(10.0, float(os.environ.get("VSIM_MIN_BUDGET_S", "90")) - (time.time() - tmin0))
             mplan, mres, tried = minimise.minimise(pool, prop, plan, hs, tier, key, budget_s=remaining)
-            rdir = os.path.join(VERIF, "replays", PROP)
+            rdir = os.path.join(VERIF, "replays", PROP) if not os.environ.get("VSIM_NO_EVIDENCE") else os.path.join("/dev/shm", "vsim_replays_scratch", PROP)
             os.makedirs(rdir, exist_ok=True)
             path = os.path.join(rdir, "%d_%s.json" % (plan.get("run_seed", 0) % 10**10, kernel.digest(*key)[:6]))
             vv = [x for x in mres["violations"] if findings.key_of(prop, x) == key][0]
@@ -231,9 +231,10 @@ def check(prop, tier, seed, nruns=None, nworkers=None, quiet=False):
             "assumptions": mod_meta.get("assumptions", []),
         }
         ev["coverage"].update(mod_meta.get("extra_coverage", {}))
-        os.makedirs(os.path.join(VERIF, "evidence"), exist_ok=True)
-        with open(os.path.join(VERIF, "evidence", PROP + ".json"), "w") as f:
-            json.dump(ev, f, indent=1, sort_keys=True)
+        if not os.environ.get("VSIM_NO_EVIDENCE"):      # selftests against scratch copies must not overwrite evidence
+            os.makedirs(os.path.join(VERIF, "evidence"), exist_ok=True)
+            with open(os.path.join(VERIF, "evidence", PROP + ".json"), "w") as f:
+                json.dump(ev, f, indent=1, sort_keys=True)
         for ln in lines:
             print(ln)
         if unreached and not quiet:
